@@ -7,7 +7,7 @@ HERE="$(cd "$(dirname "$0")/.." && pwd)"; cd "$HERE" || exit 2
 [ $# -eq 0 ] && set -- $(ls benign)
 ALL="C01 C02 C03 C04 C05 C06 C07 C08 C09 C10 C11 C12 C13 C14 C15 C16 C17 C18 C19 C20"
 for b in "$@"; do
-  for v in A B; do
+  for v in ${BENIGN_VARIANTS:-A B}; do
     p="$HERE/benign/$b/patch$v.diff"
     [ -f "$p" ] || continue
     tools/try_patch.sh "$b$v" "$p" $ALL | tee "/tmp/benign.$$.lines"
